@@ -114,6 +114,11 @@ func (svc *HTTPServiceExpr) FullPaths() []string {
 		}
 		var basePaths []string
 		if p := svc.Parent(); p != nil {
+			if svc.hasParentCycle() {
+				// Invalid design (reported by Validate): the base path
+				// of a service that is its own ancestor is not defined.
+				continue
+			}
 			if ca := p.CanonicalEndpoint(); ca != nil {
 				if routes := ca.Routes; len(routes) > 0 {
 					// Note: all these tests should be true at code
@@ -149,6 +154,20 @@ func (svc *HTTPServiceExpr) Parent() *HTTPServiceExpr {
 		}
 	}
 	return nil
+}
+
+// hasParentCycle returns true if following the parents of the service leads
+// back to a service already visited (the service or one of its ancestors is
+// its own ancestor).
+func (svc *HTTPServiceExpr) hasParentCycle() bool {
+	seen := map[*HTTPServiceExpr]struct{}{svc: {}}
+	for p := svc.Parent(); p != nil; p = p.Parent() {
+		if _, ok := seen[p]; ok {
+			return true
+		}
+		seen[p] = struct{}{}
+	}
+	return false
 }
 
 // HTTPError returns the service HTTP error with given name if any.
@@ -211,6 +230,8 @@ func (svc *HTTPServiceExpr) Validate() error {
 			}
 			if p.ParentName == svc.Name() {
 				verr.Add(svc, "Parent service %s is also child", n)
+			} else if svc.hasParentCycle() {
+				verr.Add(svc, "Parent service %s: the parent services form a cycle", n)
 			}
 		}
 	}
